@@ -28,6 +28,7 @@ std::vector<Region> regions(const dec::File & f) {
     return r;
 }
 
+long g_calls_after_error = 0, g_persistent_passes = 0;
 struct Fault { int kind; size_t off; uint32_t a, b; };   // kind 0: flip bit a at byte off; 1: zero range [off, off+a); 2: random overwrite range (seed b)
 
 void apply_faults(std::vector<uint8_t> & b, const std::vector<Fault> & fs) {
@@ -42,6 +43,78 @@ mj::Value fault_json(const std::vector<Fault> & fs) {
     mj::Value a = mj::Value::array();
     for (auto & f : fs) { mj::Value v = mj::Value::array(); v.push(f.kind); v.push((long long) f.off); v.push((long long) f.a); v.push((long long) f.b); a.push(v); }
     return a;
+}
+
+// Second pass on the same (possibly just repaired) altered file with ONE reader instance that keeps going after errors:
+// every FSR signal is read in small windows (smaller than a block, so consecutive calls hit the same chunk), a failing call
+// is retried once and then the script continues with the next window; statistics requests are repeated afterwards.
+// "Every reader call either returns an error or exactly what was written" quantifies over such sequences too: state left
+// behind by a failed call (chunk buffers, the level-1 cache) must not make a later call deliver the altered bytes.
+std::string judge_persistent(const Dump & d0, const char * ap, uint64_t seed, bool repaired, bool & detected, long & calls_after_error) {
+    Reader rd;
+    if (rd.open(ap)) return "";
+    vfs::io_budget(6000000);
+    std::string res;
+    for (auto & kv : d0.sigs) {
+        const SigDump & y = kv.second;
+        int id = kv.first;
+        if (y.def.signal_type != JLS_SIGNAL_TYPE_FSR || y.len_rc || y.read_rc || y.len <= 0) continue;
+        const DType * dt = nullptr;
+        for (int k = 0; k < N_DTYPES; ++k) if (DTYPES[k].code == (y.def.data_type & 0xffff)) dt = &DTYPES[k];
+        if (!dt) continue;
+        int64_t len = 0;
+        if (jls_rd_fsr_length(rd.rd, (uint16_t) id, &len)) { detected = true; continue; }
+        if (len > y.len) { res = strf("signal %d: length %lld from the altered file, %lld originally", id, (long long) len, (long long) y.len); break; }
+        if (!repaired && len != y.len) { res = strf("signal %d: length %lld from the altered file on a second open, %lld originally (no repair took place)", id, (long long) len, (long long) y.len); break; }
+        BitVec base(dt->bits); base.bytes = y.samples; base.n = y.len;
+        uint64_t rs = mix64(seed, (uint64_t) id);
+        uint32_t spd = y.def.samples_per_data ? y.def.samples_per_data : 64;
+        int64_t pos = 0; int calls = 0; bool had_error = false;
+        while (pos < len && calls < 3000 && res.empty()) {
+            rs = mix64(rs, (uint64_t) pos);
+            int64_t n;
+            switch ((rs >> 40) % 4) {
+                case 0: n = 1 + (int64_t) (rs % 7); break;
+                case 1: n = 1 + (int64_t) (rs % (spd / 2 + 1)); break;
+                case 2: n = 1 + (int64_t) (rs % (spd / 4 + 1)); break;
+                default: n = 1 + (int64_t) (rs % (spd + 3)); break;
+            }
+            if (n > len - pos) n = len - pos;
+            for (int attempt = 0; attempt < 2; ++attempt) {
+                std::vector<uint8_t> got;
+                int32_t rc = read_window(rd.rd, id, *dt, pos, n, got);
+                ++calls;
+                if (had_error) ++calls_after_error;
+                if (rc) { detected = true; had_error = true; continue; }     // retry once, then move on to the next window
+                for (int64_t k = 0; k < n; ++k) {
+                    uint64_t v = window_sample(*dt, got, k), w = base.get(pos + k);
+                    if (v != w) { res = strf("signal %d %s: jls_rd_fsr(start=%lld, n=%lld)%s returned 0 but sample %lld = 0x%llx, written 0x%llx (one reader instance, small windows, continuing after errors)", id, dt->name,
+                                             (long long) pos, (long long) n, attempt ? " retried after an error" : (had_error ? " after an earlier call had failed" : ""), (long long) (pos + k), (unsigned long long) v, (unsigned long long) w); break; }
+                }
+                break;
+            }
+            pos += n;
+        }
+        if (!res.empty()) break;
+        // statistics again, on the reader that has seen errors
+        if (summarisable(*dt) && !repaired && len == y.len) {
+            for (size_t q = 0; q < y.stats.size() && res.empty(); ++q) {
+                const StatRes & b = y.stats[q];
+                if (b.rc) continue;
+                std::vector<double> v((size_t) b.rq.count * 4, 0.0);
+                int32_t rc = jls_rd_fsr_statistics(rd.rd, (uint16_t) id, b.rq.start, b.rq.incr, v.data(), b.rq.count);
+                if (had_error) ++calls_after_error;
+                if (rc) { detected = true; had_error = true; continue; }
+                for (size_t j = 0; j < v.size(); ++j) if (!dbl_same(v[j], b.v[j])) { res = strf("signal %d: statistics(%lld,%lld,%lld) field %zu = %.12g from the altered file, %.12g originally (reader instance that had reported errors before)", id, (long long) b.rq.start, (long long) b.rq.incr, (long long) b.rq.count, j, v[j], b.v[j]); break; }
+            }
+        }
+        if (!res.empty()) break;
+    }
+    bool exceeded = vfs::budget_exceeded();
+    vfs::io_budget(0);
+    rd.close();
+    if (exceeded && res.empty()) res = "no progress: more than 6e6 backend calls in the windowed read of the altered file";
+    return res;
 }
 
 // judge one altered file against the baseline dump; "" = fine
@@ -87,6 +160,14 @@ std::string judge(const Dump & d0, const std::vector<uint8_t> & altered, bool ce
     if (!repaired && d1.sigs.size() != d0.sigs.size()) return strf("%zu signals enumerated, %zu originally (no repair, no error)", d1.sigs.size(), d0.sigs.size());
     if (!repaired && d1.sources.size() != d0.sources.size()) return strf("%zu sources enumerated, %zu originally (no repair, no error)", d1.sources.size(), d0.sources.size());
     (void) certain;
+    // windowed / retrying pass: always when an error was reported (state after a failed call is the interesting part), else for a share
+    uint64_t hs = 1469598103934665603ULL; for (size_t k = 0; k < altered.size(); k += 97) hs = (hs ^ altered[k]) * 1099511628211ULL;
+    if (detected || (hs % 8) == 0) {
+        long cae = 0;
+        std::string r2 = judge_persistent(d0, ap, hs, repaired, detected, cae);
+        g_calls_after_error += cae; ++g_persistent_passes;
+        if (!r2.empty()) return r2;
+    }
     return "";
 }
 
@@ -190,6 +271,9 @@ CaseOutcome prop_execute(const std::string & case_json) {
     oc.counters.push_back({"fault_sets_with_error_reported", n_detected});
     oc.counters.push_back({"fault_sets_triggering_repair", n_repaired});
     oc.counters.push_back({"fault_sets_without_effect", n_nochange});
+    oc.counters.push_back({"windowed_retry_passes", g_persistent_passes});
+    oc.counters.push_back({"reader_calls_after_a_failed_call", g_calls_after_error});
+    g_persistent_passes = 0; g_calls_after_error = 0;
     oc.nontrivial = n_sets > n_nochange;
     oc.tags.push_back(base.size() < 4096 ? "file<4K" : base.size() < 16384 ? "file<16K" : "file>=16K");
     vfs::reset();
